@@ -149,11 +149,18 @@ def name_broken(broken):
     return out
 
 
-def audit(prop_id):
-    """#print axioms for every theorem of Props.<id>; text scan of every imported project file."""
+def audit(prop_id, extra_modules=()):
+    """#print axioms for every theorem of Props.<id> (and of the listed tie modules);
+    text scan of every imported project file."""
     module = f"StathamModel.Props.{prop_id}"
     path = os.path.join(LEAN_DIR, "StathamModel", "Props", f"{prop_id}.lean")
     ns, names, examples = theorem_names(path)
+    names = [f"{ns}.{n}" if ns else n for n in names]
+    ns = None
+    for extra in extra_modules:
+        ens, enames, eex = theorem_names(os.path.join(LEAN_DIR, extra.replace(".", "/") + ".lean"))
+        names += [f"{ens}.{n}" if ens else n for n in enames]
+        examples += eex
     problems = []
     axioms_seen = {}
     if names:
@@ -277,7 +284,7 @@ def run_check(mod, tier, seed, replay=None):
             run(["lake", "build", "driver"], cwd=LEAN_DIR, timeout=3000)
         aud = {"theorems": [], "examples": 0, "axioms": {}, "problems": [], "modules": []}
         if ok:
-            aud = audit(prop_id)
+            aud = audit(prop_id, getattr(mod, "TIE_MODULES", ()))
             broken.extend(aud["problems"])
         checker = None
         if ok and tier == "thorough":
